@@ -164,4 +164,27 @@ Theorem C04_search_walk_bounded :
   fst (fst (walk W lvs child_solve lv f1 f2 nd indiff best st)) <> W_fuel.
 Proof. exact walk_no_fuel. Qed.
 
+(* the search model: child lines are later lines, so the recursion into child lines descends; with the fuel the model supplies no
+   fuel error can occur in either phase when parents precede their children *)
+From PasfmtVerif Require Import Model.WrapContexts Model.WrapSearch Model.WrapFormat Proofs.WrapSearchProofs Proofs.WrapSearchDeepProofs Proofs.WrapFitsProofs Proofs.WrapDepthProofs Proofs.WrapEventsProofs Proofs.WrapPhasesProofs Proofs.WrapAliasProofs.
+Theorem C04_search_never_out_of_fuel :
+  forall (rs : rsettings) (W : wsettings) (format_ml : bool) (lines : list lline)
+    (l : list ftoken),
+  parents_ok lines = true -> snd (olf_model rs W format_ml lines l) = false.
+Proof. exact olf_model_no_fuel_err. Qed.
+
+Theorem C04_search_child_lines_are_later_lines :
+  forall lines : list iline,
+  iparents_ok_from 0 lines -> Forall entry_later (get_line_children lines).
+Proof. exact line_children_later. Qed.
+
+Theorem C04_search_solve_no_fuel :
+  forall (W : wsettings) (lvs : list lview),
+  views_wf lvs ->
+  forall (depth : nat) (st : sst) (lv : lview) (i : nat) (ws : N * N) (first : first_decision),
+  nth_error lvs i = Some lv ->
+  (length lvs - i < depth)%nat ->
+  noerr st -> noerr (fst (solve W lvs (main_fuel W) depth st lv ws first)).
+Proof. exact solve_no_fuel_err. Qed.
+
 
